@@ -578,6 +578,8 @@ class ExprMixin(ExecBase):
                     self.fork_raise(st, T.opt_is_none(b), "TypeError")
                 b = T.opt_val(b)
         if isinstance(a.ty, List) and isinstance(op, ast.Add) and a.ty == b.ty:
+            if not self.spec and st is not None and isinstance(a.ty.elem, (Ref, Fut)):
+                return self.list_concat_ax(st, a, b)
             return self.list_concat(a, b)
         if a.ty == BYTES and b.ty == BYTES and isinstance(op, ast.Add):
             return self.list_concat(a, b)
@@ -593,6 +595,25 @@ class ExprMixin(ExecBase):
             f = z3.Function("str_op_%s" % type(op).__name__, a.ty.sort(), b.ty.sort(), STR.sort())
             return V(STR, f(a.t, b.t))
         return arith.binop(self, st, op, a, b, self.cur_line)
+
+    def list_concat_ax(self, st, a, b):
+        """a + b as a fresh list tied to its operands by three pointwise facts with explicit triggers (the lambda form
+        of list_concat leaves `Select(arr, k - len(a))` as the only term to match on, which no quantified fact about
+        the elements of b ever meets)."""
+        c = self.fresh(a.ty, "cat")
+        la, lb = T.list_len(a), T.list_len(b)
+        ca, aa, ba = T.list_arr(c), T.list_arr(a), T.list_arr(b)
+        j = z3.FreshConst(INT.sort(), "jc")
+        zero = T.intval(0).t
+        st.assume(T.list_len(c) == la + lb)
+        st.assume(z3.ForAll([j], z3.Implies(z3.And(zero <= j, j < la), z3.Select(ca, j) == z3.Select(aa, j)),
+                            patterns=[z3.Select(aa, j)]))
+        st.assume(z3.ForAll([j], z3.Implies(z3.And(zero <= j, j < lb), z3.Select(ca, la + j) == z3.Select(ba, j)),
+                            patterns=[z3.Select(ba, j)]))
+        st.assume(z3.ForAll([j], z3.Implies(z3.And(zero <= j, j < la + lb),
+                                            z3.Select(ca, j) == z3.If(j < la, z3.Select(aa, j), z3.Select(ba, j - la))),
+                            patterns=[z3.Select(ca, j)]))
+        return c
 
     def list_concat(self, a, b):
         j = z3.Const("j!cat", INT.sort())
@@ -812,6 +833,91 @@ class ExprMixin(ExecBase):
                     raise Unsupported("heterogeneous list literal")
                 arr = z3.Store(arr, T.intval(i).t, cv.t)
             res.append((s, T.list_mk(lty, arr, T.intval(len(vs)).t)))
+        return res
+
+    # ---- list comprehensions ------------------------------------------------------------------------------------
+    # [x.f for x in S]  /  [y.f for xs in D.values() for y in xs]   (one or two generators, no `if`, no await)
+    # The element expression is the bound variable itself or one attribute of it, the variable being a non-optional
+    # value: nothing in the comprehension can raise or write. The result R is a fresh list tied to the domain by two
+    # Skolemised facts - every domain element has an index in R, every index of R has a domain element - and, for a
+    # single generator over a list, by the exact order-preserving equation.
+    def _comp_strip(self, it):
+        if isinstance(it, ast.Call) and isinstance(it.func, ast.Name) and it.func.id in ("list", "tuple") and len(it.args) == 1 \
+                and not it.keywords:
+            return it.args[0]
+        return it
+
+    def _comp_level(self, v):
+        """-> (bound constants, guard, element value, is_list)"""
+        if v.ty == PYOBJ and v.t.kind in ("dictvalues", "dictkeys"):
+            d = v.t.dict
+            q = z3.FreshConst(d.ty.k.sort(), "cq")
+            g = z3.Select(T.dict_dom(d), q)
+            el = V(d.ty.v, z3.Select(T.dict_val(d), q)) if v.t.kind == "dictvalues" else V(d.ty.k, q)
+            return [q], g, el, False
+        if isinstance(v.ty, List):
+            j = z3.FreshConst(INT.sort(), "cj")
+            g = z3.And(T.intval(0).t <= j, j < T.list_len(v))
+            return [j], g, V(v.ty.elem, z3.Select(T.list_arr(v), j)), True
+        if isinstance(v.ty, Set):
+            x = z3.FreshConst(v.ty.elem.sort(), "cx")
+            return [x], z3.Select(v.t, x), V(v.ty.elem, x), False
+        if isinstance(v.ty, Dict):
+            q = z3.FreshConst(v.ty.k.sort(), "cq")
+            return [q], z3.Select(T.dict_dom(v), q), V(v.ty.k, q), False
+        raise Unsupported("comprehension over %s (line %s)" % (v.ty, self.cur_line))
+
+    def ev_ListComp(self, e, st):
+        gens = e.generators
+        if self.spec or len(gens) not in (1, 2) or any(g.ifs or g.is_async or not isinstance(g.target, ast.Name) for g in gens):
+            raise Unsupported("comprehension shape (line %s)" % getattr(e, "lineno", "?"))
+        last = gens[-1].target.id
+        elt = e.elt
+        if not (isinstance(elt, ast.Name) and elt.id == last) and not (
+                isinstance(elt, ast.Attribute) and isinstance(elt.value, ast.Name) and elt.value.id == last):
+            raise Unsupported("comprehension element must be the loop variable or one attribute of it (line %s)" % e.lineno)
+        res = []
+        for s, v0 in self.ev(self._comp_strip(gens[0].iter), st):
+            bvs, guard, el, is_list = self._comp_level(v0)
+            env = {gens[0].target.id: el}
+            if len(gens) == 2:
+                it1 = self._comp_strip(gens[1].iter)
+                if not (isinstance(it1, ast.Name) and it1.id == gens[0].target.id):
+                    raise Unsupported("inner generator must iterate the outer variable (line %s)" % e.lineno)
+                if isinstance(el.ty, Opt):
+                    raise Unsupported("comprehension over an optional value (line %s)" % e.lineno)
+                bvs1, g1, el1, _ = self._comp_level(el)
+                bvs, guard, el = bvs + bvs1, z3.And(guard, g1), el1
+                env[gens[1].target.id] = el
+                is_list = False
+            if isinstance(el.ty, Opt) and isinstance(elt, ast.Attribute):
+                raise Unsupported("attribute of an optional comprehension variable (line %s)" % e.lineno)
+            ev = self.spec_eval(elt, s, extra=env)
+            if ev.ty == PYOBJ:
+                raise Unsupported("comprehension element %s (line %s)" % (ast.unparse(elt), e.lineno))
+            rty = List(ev.ty)
+            r = self.fresh(rty, "comp")
+            self.assume_valid(s, r)
+            arr, ln = T.list_arr(r), T.list_len(r)
+            if is_list:
+                s.assume(ln == T.list_len(v0))
+                s.assume(z3.ForAll(bvs, z3.Implies(guard, z3.Select(arr, bvs[0]) == ev.t)))
+            else:
+                n = self.__dict__["_comp_n"] = self.__dict__.get("_comp_n", 0) + 1
+                idx = z3.Function("comp_idx%d" % n, *([b.sort() for b in bvs] + [INT.sort()]))
+                ix = idx(*bvs)
+                # trigger: the domain element itself (`D[q][j]`, `x in S`), so that a goal about an element finds its index
+                pat = guard if z3.is_const(el.t) else el.t
+                fact = z3.Implies(guard, z3.And(T.intval(0).t <= ix, ix < ln, z3.Select(arr, ix) == ev.t))
+                if z3.is_app(pat) and not z3.is_and(pat):
+                    s.assume(z3.ForAll(bvs, fact, patterns=[pat]))
+                else:
+                    s.assume(z3.ForAll(bvs, fact))
+                k = z3.FreshConst(INT.sort(), "ck")
+                srcs = [z3.Function("comp_src%d_%d" % (n, i), INT.sort(), b.sort())(k) for i, b in enumerate(bvs)]
+                body = z3.substitute(z3.And(guard, z3.Select(arr, k) == ev.t), *zip(bvs, srcs))
+                s.assume(z3.ForAll([k], z3.Implies(z3.And(T.intval(0).t <= k, k < ln), body), patterns=[z3.Select(arr, k)]))
+            res.append((s, r))
         return res
 
     def ev_Dict(self, e, st):
